@@ -10,3 +10,9 @@ open Neutrino.Ban
 #print axioms C13_key_canonical
 #print axioms lastBan_append
 #print axioms run_append
+#print axioms C13_enforced_counterexample
+#print axioms C13_enforced_partial
+#print axioms C13_version_enforced
+#print axioms C13_banPeer_enforced
+#print axioms C13_banned_refused
+#print axioms C13_source_facts
